@@ -30,7 +30,9 @@ R = Rules(
         "overridden pipe's end-of-interest hook removes by key; obligations shared with C08.e); Pipe discards events after its end, removes declining handlers and ends without "
         "interest; ConstructionRenderableError renders (self.code, self.message) and every subclass binds the code its name "
         "denotes in the RFC registries embedded here; the No-Response condition of send_message has the truth table of bit "
-        "(class-1).  Paper step: with these premises each request's pipe sees exactly one event with is_last=True on every "
+        "(class-1); nothing raises before a request's render task exists (escape sets of Context.render_to_pipe, error_to_message, "
+        "run_driving_pipe and of the __repr__/__str__ methods their eager text conversions of the request run are empty), and the "
+        "task is handed to something that holds it strongly (value flow; the event loop only holds tasks weakly).  Paper step: with these premises each request's pipe sees exactly one event with is_last=True on every "
         "outcome of the handler.  Run-time isolation between tasks and the multicast suppression (C10) are not decided."
     ),
     rule_text="path-sensitive symbolic walk of per-function CFGs (events and decisions per path, values resolved through def-use, helpers followed interprocedurally, explicit and implicit exception flow through the class hierarchy), truth-table equivalence of boolean values under the path decisions, finite-domain evaluation of the method dispatch and of the No-Response mask, escape sets, constant evaluation of code tables against RFC 7252/7959/8132/8516/8768",
@@ -2690,6 +2692,413 @@ def m_mask(ctx):
     ctx.ob("Code.class_ is the code's upper three bits", code_predicates(ctx.prog)["class_shift"] == 5, None, None, construct="Code.class_")
 
 
+# ---------------------------------------------------------------------------
+# C09.o  nothing raises between the arrival of the request and the existence of its render task
+
+# what the library itself documents about the objects that are formatted on the way ("A single request message is placed
+# in the Pipe at creation time"): attribute types the conversions are followed through
+_FIELD_TYPES = {"aiocoap.pipe.Pipe": {"request": "aiocoap.message.Message"}}
+_FMT_SPEC = None
+
+
+def _percent_kinds(fmt, n):
+    """conversion kinds ('r' repr / 's' str) a %-format string applies to its n operands, in order; None when the
+    specifiers cannot be matched with the operands (then every kind present applies to every operand)"""
+    import re
+    global _FMT_SPEC
+    if _FMT_SPEC is None:
+        _FMT_SPEC = re.compile(r"%(?:\((\w*)\))?[#0\- +]*(?:\*|\d+)?(?:\.(?:\*|\d+))?[hlL]?([diouxXeEfFgGcrsa%])")
+    specs = [m for m in _FMT_SPEC.finditer(fmt) if m.group(2) != "%"]
+    kind = lambda ch: "r" if ch in "ra" else ("s" if ch == "s" else "n")
+    if any(m.group(1) is not None for m in specs) or len(specs) != n or any("*" in m.group(0) for m in specs):
+        return None, {kind(m.group(2)) for m in specs}
+    return [kind(m.group(2)) for m in specs], None
+
+
+def _eager_conversions(fi):
+    """(operand, kinds, node) for every place where fi itself (not a nested def / lambda, not the lazily formatted
+    arguments of a log call) turns an object into text: `fmt % x`, f-strings, str.format, repr()/str()/format()/ascii().
+    kinds is a subset of {'r', 's'}: which of __repr__ / __str__ (falling back to __repr__) runs."""
+    out = []
+    for n in walk_no_nested(fi.node):
+        if isinstance(n, ast.BinOp) and isinstance(n.op, ast.Mod):
+            left = resolve_local(fi.node, n.left)
+            if isinstance(left, ast.Constant) and not isinstance(left.value, (str, bytes)):
+                continue  # arithmetic
+            if isinstance(left, ast.Constant) and isinstance(left.value, bytes):
+                continue
+            right = resolve_local(fi.node, n.right)
+            if isinstance(right, ast.Tuple):
+                ops = list(right.elts)
+            elif isinstance(right, ast.Dict):
+                ops = [v for v in right.values]
+            else:
+                ops = [right]
+            per, anyk = (None, {"r", "s"})
+            if isinstance(left, ast.Constant) and not isinstance(right, ast.Dict):
+                per, anyk = _percent_kinds(left.value, len(ops))
+            elif isinstance(left, ast.Constant):
+                _, anyk = _percent_kinds(left.value, -1)
+            for i, op in enumerate(ops):
+                ks = {per[i]} if per is not None else set(anyk or ())
+                ks.discard("n")
+                if ks:
+                    out.append((op, ks, n))
+        elif isinstance(n, ast.FormattedValue):
+            ks = {"r"} if n.conversion in (114, 97) else {"s"}
+            out.append((n.value, ks, n))
+        elif isinstance(n, ast.Call):
+            nm = chain(n.func)
+            if nm in ("repr", "ascii") and len(n.args) == 1:
+                out.append((n.args[0], {"r"}, n))
+            elif nm in ("str", "format") and n.args:
+                out.append((n.args[0], {"s"}, n))
+            elif isinstance(n.func, ast.Attribute) and n.func.attr in ("format", "format_map"):
+                recv = resolve_local(fi.node, n.func.value)
+                if isinstance(recv, ast.Constant) and isinstance(recv.value, str):
+                    ks = {"s"} | ({"r"} if "!r" in recv.value or "!a" in recv.value else set())
+                    for a in list(n.args) + [k.value for k in n.keywords]:
+                        out.append((a, ks, n))
+    return out
+
+
+def _static_type(fi, e, types):
+    """class of an operand: a name / attribute chain typed by `types` ({root name: class}) and the documented field
+    types; None = unknown (no obligation: the rule only speaks about objects it can type)"""
+    e = resolve_local(fi.node, e)
+    ch = chain(e)
+    if not ch:
+        return None
+    parts = ch.split(".")
+    t = types.get(parts[0])
+    for p in parts[1:]:
+        if t is None:
+            return None
+        t = _FIELD_TYPES.get(t, {}).get(p)
+    return t
+
+
+def _conversion_escapes(prog, EA, fi, types, seen, depth=0):
+    """[(node in fi, converting method, escape classes)] for the conversions fi performs eagerly on typed operands,
+    followed through the converting methods' own conversions of their typed fields"""
+    res = []
+    for op, ks, node in _eager_conversions(fi):
+        t = _static_type(fi, op, types)
+        if t is None:
+            continue
+        meths = set()
+        if "r" in ks:
+            meths.add(prog.lookup_method(t, "__repr__"))
+        if "s" in ks:
+            meths.add(prog.lookup_method(t, "__format__") if node.__class__ is ast.FormattedValue and prog.lookup_method(t, "__format__") else None)
+            meths.add(prog.lookup_method(t, "__str__") or prog.lookup_method(t, "__repr__"))
+        for m in sorted((m for m in meths if m is not None), key=lambda m: m.qn):
+            esc = sorted({e_.cls for e_ in EA.escapes(m, selfcls=t)})
+            res.append((node, m, esc))
+            if (m.qn, t) not in seen and depth < 3:
+                seen.add((m.qn, t))
+                ps = params(m, skip_self=False)
+                if ps:
+                    for node2, m2, esc2 in _conversion_escapes(prog, EA, m, {ps[0]: t}, seen, depth + 1):
+                        res.append((node, m2, esc2))
+    return res
+
+
+@R.clause("C09.o", "nothing raises between the arrival of a request at the context and the existence of its render task: Context.render_to_pipe, error_to_message and run_driving_pipe raise nothing themselves, and the text conversions they apply eagerly to the request or its pipe (%r / f-string / repr / str: Message.__repr__, Pipe.__repr__) raise nothing")
+def o_prelude(ctx):
+    """'Every request that reaches a server context is answered ... whatever the handler does': the mechanism that
+    turns failures into responses (run_driving_pipe.wrapped -> add_exception -> error_to_message, C09.a-c) only exists
+    once the render task exists.  Everything Context.render_to_pipe evaluates before that -- its own statements, the
+    synchronous bodies of error_to_message and run_driving_pipe, the arguments of the call including the task's name,
+    which is formatted eagerly from the request -- runs in the transport's receive path with no handler: an exception
+    there is no response at all, for a request-dependent fault (a payload, an option) on exactly the requests that
+    carry it.  An independently written breaking change made Message.__repr__ decode a payload excerpt; the textual
+    functions of this clause were untouched.
+
+    Decided with the escape analysis: the escape sets of the three functions are empty, and for every eager conversion
+    site in them whose operand the rule can type (the pipe parameter: Pipe, <pipe>.request: Message -- through
+    single-assignment locals) the escape set of the method the conversion runs (__repr__; __str__/__format__ when
+    defined, else __repr__) is empty, followed into that method's own conversions of typed fields (Pipe.__repr__
+    formats self.request).  Arguments of log calls are formatted lazily by logging, which contains their failures;
+    nested defs and lambdas run later (inside the task or as callbacks) and are judged by the other clauses.  A
+    conversion that moves into the task, into a lambda or disappears makes the obligation vacuous -- correctly so."""
+    prog = ctx.prog
+    EA = EscapeAnalysis(prog)
+    cf = prog.func("protocol.Context.render_to_pipe")
+    cp = params(cf)
+    ctx.need(len(cp) == 1, "Context.render_to_pipe signature changed")
+    rd = prog.func("pipe.run_driving_pipe")
+    e2m = prog.func("pipe.error_to_message")
+    rp, ep = params(rd), params(e2m)
+    ctx.need(len(rp) >= 2 and len(ep) >= 1, "run_driving_pipe / error_to_message signature changed")
+    PIPE = "aiocoap.pipe.Pipe"
+    ctx.need(PIPE in prog.classes and "aiocoap.message.Message" in prog.classes, "Pipe / Message classes not found")
+    n_sites = 0
+    for fi, types, selfcls in ((cf, {cp[0]: PIPE}, "aiocoap.protocol.Context"), (e2m, {ep[0]: PIPE}, None), (rd, {rp[0]: PIPE}, None)):
+        esc = sorted({e_.cls for e_ in EA.escapes(fi, selfcls=selfcls)})
+        ctx.ob("%s raises nothing before the render task exists (an exception there is outside error_to_message: no response)" % fi.short.split(".", 1)[1],
+               not esc, fi, fi.node, construct="escape set of %s" % fi.short.split(".", 1)[1], detail="escapes: %s" % esc)
+        for node, m, esc in _conversion_escapes(prog, EA, fi, types, set()):
+            n_sites += 1
+            ctx.ob("a text conversion of the request / its pipe evaluated before the render task exists cannot raise", not esc, fi, node,
+                   detail=None if not esc else "%s can raise %s" % (m.short, esc))
+    ctx.note("%d eager conversion(s) of typed operands on the way to the render task" % n_sites)
+    ctx.extra["prelude_implicit_sites"] = EA.implicit_sites
+
+
+# ---------------------------------------------------------------------------
+# C09.p  the render task is strongly referenced
+
+_WEAK_CALLS = ("weakref.ref", "weakref.proxy", "weakref.WeakMethod", "weakref.finalize", "weakref.WeakSet", "weakref.WeakValueDictionary",
+               "weakref.WeakKeyDictionary", "weakref.getweakrefcount", "weakref.getweakrefs")
+_WEAK_CONTAINERS = ("weakref.WeakSet", "weakref.WeakValueDictionary", "weakref.WeakKeyDictionary")
+
+
+def _ext_name(fi, e):
+    """dotted name of e with the module's (and the function's own) imports applied: `ref` -> `weakref.ref`"""
+    ch = chain(e)
+    if not ch:
+        return None
+    head, _, rest = ch.partition(".")
+    tgt = fi.module.imports.get(head)
+    if tgt is None:
+        return ch
+    return tgt + ("." + rest if rest else "")
+
+
+def _scope_bound(g):
+    """names bound in the scope of the nested function / lambda g itself"""
+    a = g.args
+    bound = {x.arg for x in a.posonlyargs + a.args + a.kwonlyargs}
+    for x in (a.vararg, a.kwarg):
+        if x is not None:
+            bound.add(x.arg)
+    if isinstance(g, ast.Lambda):
+        for n in walk_no_nested(g.body):
+            if isinstance(n, ast.NamedExpr) and isinstance(n.target, ast.Name):
+                bound.add(n.target.id)
+        return bound
+    nonloc = set()
+    for st in g.body:
+        for n in walk_no_nested(st):
+            if isinstance(n, ast.Name) and isinstance(n.ctx, (ast.Store, ast.Del)):
+                bound.add(n.id)
+            elif isinstance(n, (ast.FunctionDef, ast.AsyncFunctionDef, ast.ClassDef)):
+                bound.add(n.name)
+            elif isinstance(n, (ast.Import, ast.ImportFrom)):
+                bound.update((al.asname or al.name).split(".")[0] for al in n.names)
+            elif isinstance(n, ast.ExceptHandler) and n.name:
+                bound.add(n.name)
+            elif isinstance(n, (ast.Nonlocal, ast.Global)):
+                nonloc.update(n.names)
+    return bound - nonloc
+
+
+def _free_loads(g, name):
+    """the Load nodes of `name` inside the nested function / lambda g (at any depth) that refer to the enclosing
+    function's variable: none when g (or the intermediate scope) binds the name itself"""
+    if name in _scope_bound(g):
+        return []
+    out = []
+    bodies = [g.body] if isinstance(g, ast.Lambda) else list(g.body)
+    for b in bodies:
+        for n in walk_no_nested(b):
+            if isinstance(n, ast.Name) and n.id == name and isinstance(n.ctx, ast.Load):
+                out.append(n)
+            elif isinstance(n, (ast.FunctionDef, ast.AsyncFunctionDef, ast.Lambda)):
+                out.extend(_free_loads(n, name))
+                for d in list(n.args.defaults) + [d for d in n.args.kw_defaults if d is not None]:
+                    out.extend(x for x in ast.walk(d) if isinstance(x, ast.Name) and x.id == name and isinstance(x.ctx, ast.Load))
+    return out
+
+
+class _Holds:
+    """Who keeps a value alive once the function that created it has returned?  `strong(node)` follows the value of the
+    expression `node` through the function: True as soon as one use hands it -- or something that holds it: a bound
+    method, a partial, a tuple, a lambda / nested def that captures it -- to anything that is not provably weak (an
+    argument of a call, a store into an object, a return / await / yield).  Provably weak or no hold at all: dropping
+    the value, using it only as the receiver of a call (`t.cancel()`, `t.add_done_callback(f)`), tests and comparisons,
+    `del`, and passing it to the weakref module (ref, proxy, WeakMethod, finalize, the weak collections and their
+    add / item stores).  Anything the rule does not understand counts as strong: the rule never reports a hold it
+    merely cannot see."""
+
+    def __init__(self, fi):
+        self.fi = fi
+        self.parent = {}
+        for p in ast.walk(fi.node):
+            for c in ast.iter_child_nodes(p):
+                self.parent[id(c)] = p
+        self.seen = set()
+        self.why = []
+
+    def _weak_container(self, e):
+        v = resolve_local(self.fi.node, e)
+        return isinstance(v, ast.Call) and _ext_name(self.fi, v.func) in _WEAK_CONTAINERS
+
+    def _enclosing_scope(self, n):
+        p = self.parent.get(id(n))
+        while p is not None and not isinstance(p, (ast.FunctionDef, ast.AsyncFunctionDef, ast.Lambda)):
+            p = self.parent.get(id(p))
+        return p
+
+    def name_uses(self, name, scope):
+        """loads of the variable `name` of scope (the analysed function or a nested one)"""
+        if scope is self.fi.node:
+            bodies = list(scope.body)
+        else:
+            bodies = [scope.body] if isinstance(scope, ast.Lambda) else list(scope.body)
+        out = []
+        for b in bodies:
+            for n in walk_no_nested(b):
+                if isinstance(n, ast.Name) and n.id == name and isinstance(n.ctx, ast.Load):
+                    out.append(n)
+                elif isinstance(n, (ast.FunctionDef, ast.AsyncFunctionDef, ast.Lambda)):
+                    out.extend(_free_loads(n, name))
+                    for d in list(n.args.defaults) + [d for d in n.args.kw_defaults if d is not None]:
+                        out.extend(x for x in ast.walk(d) if isinstance(x, ast.Name) and x.id == name and isinstance(x.ctx, ast.Load))
+        return out
+
+    def strong(self, node):
+        if id(node) in self.seen:
+            return False
+        self.seen.add(id(node))
+        p = self.parent.get(id(node))
+        if p is None:
+            return True
+        if isinstance(p, ast.Expr):
+            return False  # value dropped
+        if isinstance(p, (ast.Return, ast.Await, ast.Yield, ast.YieldFrom)):
+            return True
+        if isinstance(p, (ast.Assign, ast.AnnAssign, ast.NamedExpr, ast.AugAssign)):
+            if getattr(p, "value", None) is not node:
+                return True  # the value is (part of) a target: not a flow of the value
+            tgts = p.targets if isinstance(p, ast.Assign) else [p.target]
+            res = False
+            for t in tgts:
+                if isinstance(t, ast.Name):
+                    sc = self._enclosing_scope(p) or self.fi.node
+                    if not isinstance(sc, ast.Lambda) and sc is not self.fi.node and t.id not in _scope_bound(sc):
+                        return True  # nonlocal / global store
+                    for u in self.name_uses(t.id, sc):
+                        res = self.strong(u) or res
+                    if isinstance(p, ast.NamedExpr):
+                        res = self.strong(p) or res
+                elif isinstance(t, ast.Subscript) and self._weak_container(t.value):
+                    continue
+                else:
+                    return True  # attribute / item / unpacking store: kept by another object (or not understood)
+            return res
+        if isinstance(p, ast.Attribute) and p.value is node:
+            gp = self.parent.get(id(p))
+            if isinstance(gp, ast.Call) and gp.func is p:
+                return False  # receiver of a call: the call does not keep its receiver
+            if not isinstance(p.ctx, ast.Load):
+                return False  # `t.x = v`: a store into the value
+            return self.strong(p)  # bound method / attribute value: holds the object
+        if isinstance(p, ast.Call):
+            if p.func is node:
+                return False  # the value is called
+            fn = _ext_name(self.fi, p.func)
+            if fn in _WEAK_CALLS:
+                return False
+            if isinstance(p.func, ast.Attribute) and self._weak_container(p.func.value):
+                return False
+            if fn in ("functools.partial", "functools.partialmethod", "tuple", "list", "set", "frozenset", "dict"):
+                return self.strong(p)
+            if fn in ("isinstance", "id", "repr", "str", "bool", "type", "hash", "len", "print", "callable") or is_log_call(p):
+                return False
+            return True
+        if isinstance(p, ast.keyword):
+            return self._as_child_of_call(p)
+        if isinstance(p, (ast.Tuple, ast.List, ast.Set, ast.IfExp, ast.BoolOp, ast.Starred, ast.Dict)):
+            if isinstance(p, ast.IfExp) and p.test is node:
+                return False
+            return self.strong(p)
+        if isinstance(p, (ast.Compare, ast.UnaryOp, ast.If, ast.While, ast.Assert, ast.Delete)):
+            return False
+        if isinstance(p, ast.arguments):
+            # default argument of a lambda / nested def: the function object holds the value
+            g = self.parent.get(id(p))
+            return self._function_object(g)
+        if isinstance(p, ast.Lambda):
+            return True  # the lambda's result
+        return True
+
+    def _as_child_of_call(self, kw):
+        call = self.parent.get(id(kw))
+        if not isinstance(call, ast.Call):
+            return True
+        fn = _ext_name(self.fi, call.func)
+        if fn in _WEAK_CALLS:
+            return False
+        if fn in ("functools.partial", "functools.partialmethod", "dict"):
+            return self.strong(call)
+        return True
+
+    def _function_object(self, g):
+        if isinstance(g, ast.Lambda):
+            return self.strong(g)
+        if isinstance(g, (ast.FunctionDef, ast.AsyncFunctionDef)):
+            if g.decorator_list:
+                return True
+            sc = self._enclosing_scope(g) or self.fi.node
+            res = False
+            for u in self.name_uses(g.name, sc):
+                res = self.strong(u) or res
+            return res
+        return True
+
+
+@R.clause("C09.p", "the render task stays alive until it has finished: the task run_driving_pipe creates is handed, itself or inside something that holds it strongly (bound method, partial, closure, container), to an object that outlives the call -- never only to weak references, and never dropped (the event loop keeps only weak references to tasks)")
+def p_task_alive(ctx):
+    """'... slow completion after the empty ACK': the response of a handler that is suspended comes from its task and
+    from nothing else.  asyncio keeps only weak references to tasks (`asyncio.create_task`: 'save a reference to the
+    result of this function, to avoid a task disappearing mid-execution'); a pending task is otherwise referenced only
+    by the wake-up callback of what it waits for.  run_driving_pipe does not return the task, so the one reference
+    that keeps a parked handler alive is what run_driving_pipe itself hands out: today the bound `task.cancel` stored
+    in the pipe's callbacks.  An independently written breaking change registered a closure over `weakref.ref(task)`
+    instead: a handler waiting on something only it (or a WeakSet) references is collected mid-flight and the request
+    is never answered, not even with 5.00.
+
+    Decided by value flow (class _Holds), not by the shape of the registration: from every create_task /
+    ensure_future in run_driving_pipe the task value is followed through locals, bound methods, partials, tuples,
+    conditional expressions, default arguments and closure captures of lambdas / nested defs; the obligation holds as
+    soon as one flow ends in anything that can keep it (argument of any call outside the weakref module, a store into
+    an object, return / await), and fails only when every flow ends in a drop, a receiver-only use, a test, or the
+    weakref module.  Whether the callback also *cancels* the task is C08.e / C18.j's question, not this one: a
+    registry `_tasks.add(task)` + `task.add_done_callback(_tasks.discard)` satisfies this clause."""
+    prog = ctx.prog
+    fi = prog.func("pipe.run_driving_pipe")
+    is_task = lambda e: isinstance(e, ast.Call) and ((isinstance(e.func, ast.Attribute) and e.func.attr in ("create_task", "ensure_future")) or chain(e.func) in ("create_task", "ensure_future"))
+    creations = [n for n in walk_no_nested(fi.node) if is_task(n)]
+    ctx.floor("tasks started by run_driving_pipe", len(creations), 1)
+    for c in creations:
+        H = _Holds(fi)
+        ok = _use_strong_root(H, c)
+        ctx.ob("the render task is kept alive by a strong reference that outlives run_driving_pipe", ok, fi, c,
+               detail=None if ok else "the task is only dropped, used as a receiver, tested or handed to weak references: nothing but the event loop's weak set refers to it while the handler is suspended")
+
+
+def _use_strong_root(H, c):
+    """is the value created at c held strongly: by one of its flows (H.strong), or because a variable it reaches is
+    captured by a nested function / lambda (closure cell) whose function object is itself held strongly"""
+    if H.strong(c):
+        return True
+    reached = [n for n in ast.walk(H.fi.node) if id(n) in H.seen and isinstance(n, ast.Name)]
+    for u in reached:
+        g = H._enclosing_scope(u)
+        while g is not None and g is not H.fi.node:
+            if _free_loads_contains(g, u) and H._function_object(g):
+                return True
+            g = H._enclosing_scope(g)
+    return False
+
+
+def _free_loads_contains(g, u):
+    return any(x is u for x in _free_loads(g, u.id)) or any(
+        x is u for d in list(g.args.defaults) + [d for d in g.args.kw_defaults if d is not None] for x in ast.walk(d))
+
+
 F_PIPE = "aiocoap/pipe.py"
 F_PROTO = "aiocoap/protocol.py"
 F_RES = "aiocoap/resource.py"
@@ -2820,3 +3229,15 @@ R.seed("C09.e", F_RES, _CHAIN, "            try:\n                response.code 
        "lookup with a KeyError fallback that forgot FETCH")
 R.seed("C09.e", F_RES, _CHAIN, "            if request.code in {Code.GET: Code.CONTENT, Code.FETCH: Code.CONTENT, Code.DELETE: Code.DELETED}:\n                response.code = {Code.GET: Code.CONTENT, Code.FETCH: Code.CONTENT}[request.code]\n            else:\n                response.code = Code.CHANGED\n",
        "membership guard over one table, lookup in a smaller one: DELETE raises KeyError")
+
+# ninth pass: the prelude of the render task raises nothing (C09.o); the render task is strongly held (C09.p)
+F_MSG = "aiocoap/message.py"
+R.seed("C09.o", F_MSG, "        payload = f\", {len(self.payload)} byte(s) payload\" if self.payload else \"\"\n", "        payload = f\", payload {self.payload.decode('utf8')}\" if self.payload else \"\"\n",
+       "the request's repr, formatted eagerly into the render task's name, decodes the payload: UnicodeDecodeError before the task exists")
+R.seed("C09.o", F_PROTO, "            name=\"Rendering for %r\" % pipe.request,\n", "            name=\"Rendering for %s\" % pipe.request.payload.decode(\"utf8\"),\n",
+       "the task's name is computed from the payload text outside any handler")
+R.seed("C09.p", F_PIPE, "    pipe.on_interest_end(task.cancel)\n", "    task.add_done_callback(lambda t: None)\n", "nothing keeps the render task: the loop's weak set is its only referent")
+R.seed("C09.p", F_PIPE, "    pipe.on_interest_end(task.cancel)\n", "    import weakref\n    cancel = weakref.WeakMethod(task.cancel)\n    pipe.on_interest_end(lambda: cancel() and cancel()())\n",
+       "the pipe holds only a weak method of the task")
+R.seed("C09.p", F_PIPE, "    pipe.on_interest_end(task.cancel)\n", "    def stop():\n        task.cancel()\n    import weakref\n    pipe.on_interest_end(weakref.proxy(stop))\n",
+       "the closure that captures the task is itself only weakly referenced")
